@@ -286,53 +286,59 @@ func run(c Case) ([]vk.Violation, vk.Info) {
 		i := i
 		name := instName(i)
 		var err error
+		expectErr := false
+		for _, v := range c.Views {
+			if v.Incompat && v.matches(i, in) && !aggCompatible(v.Agg, in.Kind) {
+				expectErr = true
+			}
+		}
 		switch {
 		case in.Kind == kCounter && !in.Float:
 			var x metric.Int64Counter
 			x, err = meter.Int64Counter(name, metric.WithUnit(in.Unit))
-			if err == nil {
+			if err == nil || expectErr {
 				syncs[i].addI = x.Add
 			}
 		case in.Kind == kCounter:
 			var x metric.Float64Counter
 			x, err = meter.Float64Counter(name, metric.WithUnit(in.Unit))
-			if err == nil {
+			if err == nil || expectErr {
 				syncs[i].addF = x.Add
 			}
 		case in.Kind == kUpDown && !in.Float:
 			var x metric.Int64UpDownCounter
 			x, err = meter.Int64UpDownCounter(name, metric.WithUnit(in.Unit))
-			if err == nil {
+			if err == nil || expectErr {
 				syncs[i].addI = x.Add
 			}
 		case in.Kind == kUpDown:
 			var x metric.Float64UpDownCounter
 			x, err = meter.Float64UpDownCounter(name, metric.WithUnit(in.Unit))
-			if err == nil {
+			if err == nil || expectErr {
 				syncs[i].addF = x.Add
 			}
 		case in.Kind == kHist && !in.Float:
 			var x metric.Int64Histogram
 			x, err = meter.Int64Histogram(name, metric.WithUnit(in.Unit))
-			if err == nil {
+			if err == nil || expectErr {
 				syncs[i].recI = x.Record
 			}
 		case in.Kind == kHist:
 			var x metric.Float64Histogram
 			x, err = meter.Float64Histogram(name, metric.WithUnit(in.Unit))
-			if err == nil {
+			if err == nil || expectErr {
 				syncs[i].recF = x.Record
 			}
 		case in.Kind == kGauge && !in.Float:
 			var x metric.Int64Gauge
 			x, err = meter.Int64Gauge(name, metric.WithUnit(in.Unit))
-			if err == nil {
+			if err == nil || expectErr {
 				syncs[i].recI = x.Record
 			}
 		case in.Kind == kGauge:
 			var x metric.Float64Gauge
 			x, err = meter.Float64Gauge(name, metric.WithUnit(in.Unit))
-			if err == nil {
+			if err == nil || expectErr {
 				syncs[i].recF = x.Record
 			}
 		case !in.Float:
@@ -392,9 +398,15 @@ func run(c Case) ([]vk.Violation, vk.Info) {
 			obsF[i] = x
 			allObs = append(allObs, x)
 		}
-		if err != nil {
+		if err != nil && !expectErr {
 			bad("setup_error", "creating %s %s: %v", kindNames[in.Kind], name, err)
 			return vs, info
+		}
+		if err == nil && expectErr {
+			bad("incompatible_view_not_reported", "creating %s %s reported no error although a matching view asks for an incompatible aggregation", kindNames[in.Kind], name)
+		}
+		if expectErr {
+			info.Class("instrument_with_incompatible_view")
 		}
 	}
 	if c.MultiCB && len(allObs) > 0 {
